@@ -26,6 +26,16 @@ for k in range(jobs):
 binp = os.path.join(base, 'qfcheck')
 shutil.copy('/verif/bin/qfcheck', binp)
 
+# what the checker says on the unchanged tree under `-rules all` (the known findings, which are keyed per
+# property and therefore not suppressed in an ad-hoc run): subtracted from every patch's report
+baseline = set()
+if mode == 'refactors':
+    wt0 = pool.get()
+    p0 = subprocess.run([binp, '-repo', wt0, '-verif', '/verif', '-rules', 'all', '-no-evidence'], stdout=subprocess.PIPE, stderr=subprocess.STDOUT, env=env)
+    baseline = {l.split()[1] for l in p0.stdout.decode(errors='replace').splitlines() if l.startswith('  VIOLATED') or l.startswith('  UNDECIDED')}
+    pool.put(wt0)
+    print('baseline (known findings on the unchanged tree):', sorted(baseline), flush=True)
+
 def items():
     d = 'refactors' if mode == 'refactors' else 'seeded'
     for p in sorted(glob.glob('/verif/%s/*/patch.diff' % d)):
@@ -48,9 +58,11 @@ def run(item):
             cmd = [binp, '-repo', wt, '-verif', '/verif', '-property', prop, '-no-evidence']
         p = subprocess.run(cmd, stdout=subprocess.PIPE, stderr=subprocess.STDOUT, env=env, timeout=1800)
         out = p.stdout.decode(errors='replace')
-        keys = sorted({l.split()[1] for l in out.splitlines() if l.startswith('  VIOLATED') or l.startswith('  UNDECIDED')})
+        keys = sorted({l.split()[1] for l in out.splitlines() if l.startswith('  VIOLATED') or l.startswith('  UNDECIDED')} - baseline)
         if 'cannot analyse' in out:
             keys.append('cannot-analyse')
+        if mode == 'refactors':
+            return name, ('alarm' if keys else 'silent'), keys
         return name, ('alarm' if keys or 'VIOLATION' in out else 'silent'), keys
     finally:
         subprocess.run(['git', '-C', wt, 'checkout', '-q', '--', '.'])
